@@ -284,6 +284,10 @@ def harnesses(ctx) -> List[H]:
     hs.append(mk("c12_attr_usable_pool", "i: int, typed: bool, overlap: bool, x: int", ["0 <= i < 10"],
                  "pool = ('my-prop', 'class', '$ref', '1st', 'two words', '__init__', 'a.b', 'default', '_dict', 'x')\nreturn attr_usable(pool[concretize_int(i, 0, 9)], typed, overlap, x)", timeout=300, group="attr",
                  covers="renamed properties are readable under the mapped name after validation, with and without a patternProperties regex that also matches the JSON name; typed and untyped"))
+    rpool = ("-dict", " dict", "\tdict", "--init--", "__class  ", "- module -", "--dict--", "_dict ", "class-", " class", "-class", "1class", "de f", "None-", "__init__ ", "_-dict")
+    hs.append(mk("c12_attr_reserved_after_mapping_pool", "i: int, typed: bool, x: int", [f"0 <= i < {len(rpool)}"],
+                 f"n = {rpool!r}[concretize_int(i, 0, {len(rpool) - 1})]\nreturn attr_valid(n) and attr_source(n) and attr_usable(n, typed, False, x)", timeout=300, group="attr",
+                 covers="names that only BECOME reserved / keywords once separators are mapped to underscores (-dict, --init--, ' class', ...): still valid, non-reserved, usable"))
     hs.append(mk("c12_attr_source_reparse_pool", "i: int, how: int", ["0 <= i < 8", "0 <= how < 4"],
                  "pool = ('my-prop', 'class', '$ref', '1st', 'two words', '__init__', 'a.b', 'plain')\nreturn attr_source_reparse(pool[concretize_int(i, 0, 7)], concretize_int(how, 0, 3))", timeout=300, group="attr",
                  covers="renamed names on objects whose properties are re-parsed (type list, anyOf / not sibling, one sub-schema dict used three times)"))
